@@ -11,6 +11,14 @@ NOTE = ("Trusted: CrossHair 0.0.110 + z3, the overlay venv, the environment stub
         "isinstance shim), the harness oracles under /verif/vf. Grammars are a fixed corpus (classes cannot be symbolic); all bounds are in evidence.assumptions.")
 
 CLAIMED = {
+    "C10": dict(
+        text="Every create/map/mutate/crossover pipeline of every representation is run on grammars that force internal backtracking (dependent "
+             "refinements that make a production infeasible in some contexts) and on weighted grammars, with all draws symbolic; a by-value snapshot of "
+             "the grammar (productions with order, minimum depths, recursive set, node sets, weights) taken before is compared with one taken after on "
+             "EVERY path, including paths on which the operation fails. Path trees exhausted. Bounds: depth <= 2-3, <= 2 (thorough 3) consecutive "
+             "operations on one grammar object, corpus grammars f5ctx,f6,f1,f4.",
+        design_ref="DESIGN.md section 4 (C10)",
+    ),
     "C03": dict(
         text="For each corpus grammar the minimum depth m is computed by an independent least-fixpoint oracle; for every max_depth in {m, m+1, m+2} "
              "(thorough m+3) the real deciders (grow, full, PI-grow, dSGE), used directly, through GE/SGE mapping and after mutation/crossover, are "
